@@ -174,7 +174,7 @@ def acc_cases(draw, tier):
     detours = draw(st.lists(st.booleans(), min_size=len(visit), max_size=len(visit)))
     visit = [{"detour": n} if d else n for n, d in zip(visit, detours)]
     fr = draw(st.lists(st.lists(st.floats(0, 0.999), min_size=4, max_size=4), min_size=1, max_size=3))
-    return {"cfg": cfg, "start": start, "visit": visit, "fracs": fr,
+    return {"cfg": cfg, "start": start, "visit": visit, "fracs": fr, "figure": draw(st.sampled_from([0, 0, 1, 2, 5])),
             "dtype": draw(st.sampled_from(["float64", "complex128"])), "schedule": draw(gen.schedules(8))}
 
 
@@ -211,6 +211,9 @@ def _acc_rank(ctx, case):
             name = back
         elif name != grid.currentLayout:
             grid.setLayout(name)
+        if case.get("figure"):
+            # a plotting gather (a read-only service of the grid) before the accessors are examined
+            grid.getBlockFromDict({}, ctx.comm, case["figure"] % ctx.size)
         l = grid.getLayout(name)
         order = list(l.dims_order)
         starts = [int(x) for x in l.starts]
